@@ -663,6 +663,8 @@ class StmtMixin:
                 return self.unroll(node, st, module, its, bind, body, orelse, 0, limit=self.cfg.unroll_while[(self.cur_func_name, ordinal)])
             raise NeedLoopContract('loop %s of %s (line %d) needs a contract' % (ordinal, self.cur_func_name, node.lineno))
         mode = lc['mode']
+        if mode == 'summary' and its.kind == 'static' and len(its.items) - its.idx <= 8:
+            return self.unroll(node, st, module, its, bind, body, orelse, 0)       # a statically known, short iteration is executed exactly
         if mode == 'summary':
             return self.loop_summary(node, st, module, its, bind, body, orelse, lc, ordinal)
         if mode == 'invariant':
@@ -784,6 +786,7 @@ class StmtMixin:
             if not self.feasible(s2):
                 continue
             s2.tok, s2.arr['li'], s2.arr['dv'], s2.arr['dh'] = F('tok', Tok), F('li', Z.ArrRSeq), F('dv', Z.ArrDV), F('dh', Z.ArrDH)
+            s2.ghost['$loops'] = tuple(s2.ghost.get('$loops', ())) + (name,)
             for i, (vname, tag) in enumerate(lc['vars']):
                 if vname in lc.get('readonly', ()) or vname.startswith('=') or vname not in targets:
                     continue      # never rebound by the loop (syntactically): the binding is unchanged (object contents live in the heap)
